@@ -21,27 +21,76 @@ MONITORS = {
 
 
 def evaluate(case: Dict[str, Any]) -> Dict[str, Any]:
-    kw, desc, p = shell.build(case)
-    run = Run(kw).execute()
-    corr, skipped = shell.replay(run)
-    out: Dict[str, Any] = {"corr": corr, "skipped": skipped, "tags": shell.basic_tags(run, desc, p), "prop": []}
-    for m in case["monitors"]:
-        out["prop"] += MONITORS[m](run, p, kw)
-    r = run.result
-    if r is not None and r.nit >= 1:
-        out["nontrivial"] = f"{case['seed']}:{sorted((case.get('features') or {}).items())}"
-    if case["seed"] % 97 == 0:
-        out["sample"] = {"case": case, "problem": p.name, "cfg": desc["cfg"], "features": desc["features"],
-                         "message": r.message if r is not None else repr(run.exc),
-                         "nit": int(r.nit) if r is not None else None, "nfev": int(r.nfev) if r is not None else None,
-                         "user_calls": len(run.rec.calls), "dcsrch_calls": sum(len(e["dc"]) for e in run.rec.ls)}
+    """one run, or a chain of restarts (case["chain"] = per-leg overrides; every leg after the
+    first restarts from the previous leg's result)"""
+    legs = case.get("chain") or [{}]
+    out: Dict[str, Any] = {"corr": [], "skipped": None, "tags": [], "prop": []}
+    prev = None
+    ncomp = 0
+    for li, leg in enumerate(legs):
+        kw, desc, p = shell.build(case)
+        kw.update(leg)
+        if prev is not None:
+            kw["x0"] = np.array(prev.x, copy=True)
+            kw["checkpoint"] = prev
+        run = Run(kw).execute()
+        if run.nonfinite():
+            # overflow / nan in the user's functions: outside the quantifier of every property
+            out["tags"].append("nonfinite-objective-domain")
+            break
+        corr, skipped = shell.replay(run)
+        if skipped:
+            out["skipped"] = skipped
+        elif corr is not None:
+            ncomp += 1
+            out["corr"] += [f"leg {li}: {d}" for d in corr]
+        out["tags"] += shell.basic_tags(run, desc, p) if li == 0 else [f"restart_leg_msg={run.result.message if run.result is not None else 'exc'}"]
+        for m in case["monitors"]:
+            for v in MONITORS[m](run, p, kw):
+                v = dict(v)
+                if li > 0:
+                    v["what"] = v["what"] + " (after restart)"
+                out["prop"].append(v)
+        r = run.result
+        if r is None:
+            break
+        if li == 0 and r.nit >= 1:
+            out["nontrivial"] = f"{case['seed']}:{sorted((case.get('features') or {}).items())}:{legs}"
+        if li == 0 and case["seed"] % 97 == 0:
+            out["sample"] = {"case": case, "problem": p.name, "cfg": desc["cfg"], "features": desc["features"],
+                             "message": r.message, "nit": int(r.nit), "nfev": int(r.nfev),
+                             "user_calls": len(run.rec.calls), "dcsrch_calls": sum(len(e["dc"]) for e in run.rec.ls)}
+        prev = r
+    if len(legs) > 1:
+        out["tags"].append(f"chain_len={len(legs)}")
+    if ncomp == 0 and not out["skipped"]:
+        out["corr"] = None
     return out
 
 
-def gen_cases(prop: str, n: int, seed: int, monitors: List[str], feature_fn, **common) -> List[Dict[str, Any]]:
+def gen_chain(r, maxlegs=4):
+    """restart chain: maxiter per leg (cumulative), sometimes a reduced maxcor, sometimes a leg
+    that performs no iteration (maxiter below the checkpoint's nit)"""
+    n = r.randint(2, maxlegs)
+    legs = []
+    k = r.choice([0, 0, 1, 2, 3, 5])
+    for i in range(n):
+        leg = {"maxiter": k}
+        if i > 0 and r.random() < 0.3:
+            leg["maxcor"] = r.choice([1, 2, 3])
+        legs.append(leg)
+        k = k + r.choice([-2, 0, 1, 2, 4, 8])
+        k = max(k, 0)
+    return legs
+
+
+def gen_cases(prop: str, n: int, seed: int, monitors: List[str], feature_fn, chain_frac: float = 0.0, **common) -> List[Dict[str, Any]]:
     out = []
     for i in range(n):
         s = seed * 1_000_003 + i
         r = random.Random(s)
-        out.append({"seed": s, "features": feature_fn(r), "monitors": monitors, **common})
+        c = {"seed": s, "features": feature_fn(r), "monitors": monitors, **common}
+        if chain_frac and r.random() < chain_frac:
+            c["chain"] = gen_chain(r)
+        out.append(c)
     return out
